@@ -7,6 +7,8 @@ evaluated on the same state (the items as seen through list.__getitem__)."""
 import glob
 import os
 
+import numpy as np
+
 from rv import env
 from rv.gen import secops
 
@@ -26,7 +28,7 @@ EXHAUSTIVE = {"quick": "all operation histories up to length 3 over the 14-opera
               "thorough": "all operation histories up to length 4 over the 14-operation alphabet"}
 REQUIRED = ["probes_contains", "probes_getitem", "probes_getattr", "probes_get", "probes_get_add",
             "probes_delitem", "probes_setvalue", "probes_int", "probes_slice",
-            "states_with_duplicates", "states_norm_on", "probes_get_default_kinds"]
+            "states_with_duplicates", "states_norm_on", "probes_get_default_kinds", "probes_int_numpy_or_bool"]
 SOFT_DEADLINE = {"quick": 90, "thorough": 1200}
 
 NAMES = ["A", "a", "B", "", "1", "A:1", "_A"]      # "_A": a legal mnemonic that looks like a private attribute; "A:1" collides with a generated suffix: the only way to reach duplicate session names
@@ -261,8 +263,11 @@ def probe_state(ctx, rebuild, norm, tag):
             V("get-add-not-exactly-one", "s.get(absent, default=%s, add=True): %d -> %d items" % (type(dflt).__name__, len(b8), len(a8)),
               {"state": sessions, "norm": norm})
     # ---- integer keys and slices ------------------------------------------------------------
-    for i in int_range:
+    for i0 in int_range + [np.int64(x) for x in int_range[:4]] + [np.intp(int_range[-1]), np.int32(int_range[0]), True, False]:
+        i = i0                   # "integer keys ... exactly as in a list": a list takes anything with __index__ (numpy integers, bool)
         ctx.count("probes_int")
+        if type(i0) is not int:
+            ctx.count("probes_int_numpy_or_bool")
         try:
             exp_it, exp_ok = items[i], True
         except IndexError:
